@@ -36,6 +36,13 @@ Failures(ev) ==
   \* (c) honest histories: coverage, original bodies, authority indexing
   \cup (IF ~ev.honest THEN {}
         ELSE (IF \A k \in 1..Len(sigs.subsets) : sigs.subsets[k].authority = U64(SumTo(ev.chains, k - 1)) THEN {} ELSE {"authority index does not point at the signer's own leaf certificate"})
+        \* every vouched subset of an honest history points at the very certificate whose key signed it (recorded inside
+        \* the signing algorithm when it signed) - also when the bundle is looked at again later
+        \cup (IF \A k \in 1..Len(sigs.subsets) :
+                   LET vs == sigs.subsets[k] IN
+                   /\ IsSmall(vs.authority) /\ SmallVal(vs.authority) < Len(sigs.auths)
+                   /\ <<sigs.auths[SmallVal(vs.authority) + 1].cert, SignedMessage(ver, vs.signed)>> \in signed
+              THEN {} ELSE {"a vouched subset points at a certificate other than its signer's"})
         \cup (IF ev.newerr THEN {}
               ELSE { "coverage #" \o ToString(i) : i \in { j \in 1..Len(ev.exs) :
                        IF ev.expect[j] < 0 THEN ev.results[j].state # "unsigned"
